@@ -39,7 +39,7 @@ func NewEventWriter(out io.Writer) ion.Writer {
 	w := ion.NewTextWriter(out)
 	w.WriteSymbol(ion.NewSymbolTokenFromString("$ion_event_stream"))
 
-	return &eventwriter{enc: ion.NewEncoder(w)}
+	return &eventwriter{enc: ion.NewEncoder(w), inStruct: make(map[int]bool)}
 }
 
 func (e *eventwriter) FieldName(val ion.SymbolToken) error {
